@@ -25,7 +25,7 @@ RULE = ('programs = trees of nodes (definition / modification / definition with 
         'distinct by rendered text')
 SHARDS = {'quick': 16, 'thorough': 16}
 MIN_NONTRIVIAL = {'quick': 9000, 'thorough': 60000}
-REQUIRED_CLASSES = ['repeated-condition-text', 'repeated-condition-text:defined', 'repeated-condition-text:change-in-selected-clause', 'core-single', 'core-nested', 'core-sequence', 'closure-end', 'closure-indent', 'nesting>=2',
+REQUIRED_CLASSES = ['second-parse-from-a-base-whose-first-parse-ended-inside-a-block', 'repeated-condition-text', 'repeated-condition-text:defined', 'repeated-condition-text:change-in-selected-clause', 'core-single', 'core-nested', 'core-sequence', 'closure-end', 'closure-indent', 'nesting>=2',
                     'nesting>=3', 'node-before', 'node-inside', 'node-between', 'node-after', 'all-false',
                     'else-selected', 'later-true-clause-shadowed', 'block-under-group', 'compact-form',
                     'condition-expression', 'modification-in-clause', 'property-in-clause',
@@ -123,14 +123,14 @@ def add_noise(text, noise):
 
 # ------------------------------------------------------------------------------------------------ real run
 
-def run_real(text, ctx):
+def run_real(text, ctx, base=None):
     """-> ('env', {name: record}) | ('exc', type name, args) | ('budget', n) | ('unreadable', exc)"""
     _uid[0] += 1
     keep = []
     steps = ctx['steps']
 
     def go():
-        p = ctx['DIP'](name='c15n%d' % _uid[0])
+        p = ctx['DIP'](name='c15n%d' % _uid[0]) if base is None else ctx['DIP'](base, name='c15n%d' % _uid[0])
         keep.append(p)
         p.add_string(text)
         env = p.parse()
@@ -347,11 +347,34 @@ def run_case(case, ctx):
     devs = judge(A, obs)
     for d in pdevs:
         devs.append(dev('c16-postcondition:' + d['kind'], dict(node=d['node'], **d['detail']), known=d.get('known')))
+    # ---- the same text as the SECOND program parsed from one base environment whose first program ended inside a case block
+    #      (a text may end without @end; a text may fail inside a clause): what the first parse met is no part of the second
+    import zlib
+    if not devs and A.mustfail is None and obs[0] == 'env' and zlib.crc32(text.encode()) % 5 == 0:
+        bobs, bkeep = run_real('zzbase int = 1\n', ctx)
+        base_env = [k for k in bkeep if not hasattr(k, 'add_string')]
+        if bobs[0] == 'env' and base_env:
+            base_env = base_env[-1]
+            fresh, k1 = run_real(text, ctx, base=base_env)
+            poison = ['@case false\n  zq int = 1\n', '@case true\n  zq int = 1\n', '@case true\n  zq int = abc\n',
+                      '@case true\n  @case false\n    zq int = 1\n'][zlib.crc32(text.encode()) // 5 % 4]
+            first, k2 = run_real(poison, ctx, base=base_env)
+            second, k3 = run_real(text, ctx, base=base_env)
+            R16.drain_parse_deviations()
+            mons['shared_base_twins'] = 1
+            cl_extra = 'second-parse-from-a-base-whose-first-parse-ended-inside-a-block'
+            if fresh != second:
+                devs.append(dev('earlier-parse-from-the-same-base-changes-this-parse', dict(first_text=poison, first_outcome=first[0],
+                                                                                      fresh=repr(fresh)[:300], after_the_first_parse=repr(second)[:300])))
+            del k1, k2, k3
+        del bkeep
     if A.mustfail is None:
         mons['strict_oracle_programs' if A.shape_free else 'taint_oracle_programs'] = 1
     else:
         mons['mustfail_programs'] = 1
     cl = classes_of(case, A)
+    if mons.get('shared_base_twins'):
+        cl.append('second-parse-from-a-base-whose-first-parse-ended-inside-a-block')
     if nnoise:
         mons['programs_with_empty_or_comment_lines'] = 1
         cl.append('empty-or-comment-lines')
